@@ -1025,6 +1025,49 @@ class Program(object):
         if self._wparams is not None:
             return self._wparams
         wp = collections.defaultdict(set)
+        # locals that point into what a parameter points to: `dot = strchr(str, '.')`, `p = str + 1`, `q = p`
+        INTO = {'strchr', 'strrchr', 'strstr', 'strpbrk', 'memchr', 'strcasestr', 'index', 'rindex'}
+
+        def derived_from(fn, e, al, depth=0):
+            """names of parameters the pointer value e may point into"""
+            while isinstance(e, dict) and e.get('k') == 'cast':
+                e = e.get('e')
+            if not isinstance(e, dict) or depth > 6:
+                return set()
+            if is_var(e):
+                if e.get('sc') == 'param':
+                    return {e['name']}
+                return set(al.get(e['name'], ()))
+            if e.get('k') == 'bin' and e.get('op') in ('+', '-'):
+                return derived_from(fn, e.get('l'), al, depth + 1) | derived_from(fn, e.get('r'), al, depth + 1)
+            if e.get('k') == 'un' and e.get('op') == '&':
+                x = e.get('e')
+                if isinstance(x, dict) and x.get('k') == 'idx':
+                    return derived_from(fn, x.get('base'), al, depth + 1)
+                return set()
+            if e.get('k') == 'callref' and e.get('callee') in INTO and e.get('args'):
+                return derived_from(fn, e['args'][0], al, depth + 1)
+            if e.get('k') == 'cond':
+                return derived_from(fn, e.get('t'), al, depth + 1) | derived_from(fn, e.get('f'), al, depth + 1)
+            return set()
+        aliases = {}
+        for fn in self.fns.values():
+            al = {}
+            ch = True
+            while ch:
+                ch = False
+                for s in fn.sites():
+                    ev = s.ev
+                    tgt = ev.get('var') if ev['k'] == 'decl' else (ev['lhs']['name'] if ev['k'] == 'store' and is_var(ev.get('lhs')) and ev['lhs'].get('sc') == 'local' and ev.get('op') in ('=', '+=', '-=') else None)
+                    val = ev.get('init') if ev['k'] == 'decl' else ev.get('rhs') if ev['k'] == 'store' else None
+                    t = ev.get('t') if ev['k'] == 'decl' else (ev.get('lhs') or {}).get('t') if ev['k'] == 'store' else None
+                    if not tgt or not isinstance(val, dict) or '*' not in (t or ''):
+                        continue
+                    d = derived_from(fn, val, al)
+                    if d - al.get(tgt, set()):
+                        al[tgt] = al.get(tgt, set()) | d
+                        ch = True
+            aliases[fn.key] = al
         changed = True
         while changed:
             changed = False
@@ -1042,12 +1085,19 @@ class Program(object):
                                 targets.append({'k': 'un', 'op': '*', 'e': ev['args'][i]})
                     for t in targets:
                         rv = root_var(t)
-                        if rv is None or rv.get('sc') != 'param' or is_var(t):
+                        if rv is None or is_var(t):
                             continue
-                        i = fn.params.index(rv['name']) if rv['name'] in fn.params else None
-                        if i is not None and i not in wp[fn.key]:
-                            wp[fn.key].add(i)
-                            changed = True
+                        if rv.get('sc') == 'param':
+                            names = {rv['name']}
+                        elif rv.get('sc') == 'local':
+                            names = aliases[fn.key].get(rv['name'], set())
+                        else:
+                            continue
+                        for nm in names:
+                            i = fn.params.index(nm) if nm in fn.params else None
+                            if i is not None and i not in wp[fn.key]:
+                                wp[fn.key].add(i)
+                                changed = True
         self._wparams = wp
         return wp
 
